@@ -155,6 +155,10 @@ def stepTop (w : World) (toks : List String) : World × String :=
       let ops := (splitOps rest).toArray
       if ops.size == 0 then (w, "bad-op") else (w, s!"h {sweep (kind == "s") ops depth lo hi}")
     | _, _, _ => (w, "bad-op")
+  | t :: _ =>
+    -- `f:<op> …` (send-fault sessions that are not compared): executed by the implementation side
+    -- under its oracle only; both sides print `skip`
+    if t.startsWith "f:" then (w, "skip") else stepLine w toks
   | _ => stepLine w toks
 
 def main : IO Unit := runLoop stepTop ({} : World)
